@@ -26,6 +26,7 @@ for u in U16:
 
 UNIT_DEFAULT_PROPS["U6b"] = ["C04"]
 UNIT_DEFAULT_PROPS["U5"] = ["C16"]
+UNIT_DEFAULT_PROPS["U12"] = ["C12"]
 
 RUNTIME = ["U6", "U6b", "U7", "U8"] + U9
 
@@ -43,6 +44,7 @@ PROPS = {
     "C09": {"units": ["U10"], "safety_units": ["U10"]},
     "C10": {"units": U9},
     "C11": {"units": ["U1", "U2", "U3", "U4"], "safety_units": ["U1", "U2", "U3", "U4"]},
+    "C12": {"units": ["U2", "U4", "U12"], "safety_units": ["U12"]},
     "C13": {"units": ["U1", "U4"]},
     "C16": {"units": ["U5"], "safety_units": ["U5"]},
     "C18": {"units": ["U1"]},
